@@ -57,7 +57,8 @@ def asU8 (im : IceMode) (a : Attr) : Nat :=
   let fg := if a.flags &&& Xb.attrBold = Xb.attrBold then fg0 ||| 0b1000 else fg0
   let bg := match im with
     | .blink => (a.bg &&& 0b0111) ||| (if a.flags &&& Xb.attrBlink = Xb.attrBlink then 0b1000 else 0)
-    | _ => a.bg &&& 0b1111
+    | .unlimited => (a.bg &&& 0b1111) ||| (if a.flags &&& Xb.attrBlink = Xb.attrBlink then 0b1000 else 0)
+    | .ice => a.bg &&& 0b1111
   (fg ||| (bg <<< 4)) % 256
 
 /-- `encode_attr(buf, ch, fonts)` -/
